@@ -364,6 +364,9 @@ def check_C18(tier, seed):
     large = [c for c in L if c["id"].startswith("h-large")]
     fgroups += [{"id": "f-large-%d" % i, "cases": [large[(i + q) % len(large)] for q in range(6)], "schedule": []} for i in range(3)]
     evE = run_vdriver_raw("sched", fgroups, "C18_E")
+    # (v') one long history in one process: 300 calls alternating over the shaders, then every shader once more
+    longL = [dict(L[(7 * q) % len(L)], repeat=0) for q in range(300 if quick else 3000)] + [dict(c, repeat=0) for c in L]
+    evF = run_vdriver_raw("gen", longL, "C18_F", extra=["--no-project", "--no-s"])
     # (vi) system calls of the calling process: nothing is spawned or opened for writing, except one formatter per call when asked
     sys_events = []
     for fmt in (False, True):
@@ -372,7 +375,7 @@ def check_C18(tier, seed):
     by_src = {}
     order = []
     total = 0
-    for tag, evs in (("A", evA), ("B", evB), ("C", evC), ("D", evD), ("E", evE)):
+    for tag, evs in (("A", evA), ("B", evB), ("C", evC), ("D", evD), ("E", evE), ("F", evF)):
         if tag == "D":
             sched_events = [e for e in evs if e["ev"] == "sched"]
         for c, o in pairs_of(evs):
@@ -599,6 +602,9 @@ def check_C01(tier, seed):
              "globals": [], "consts": [], "overrides": [], "functions": [],
              "entries": [{"name": "vs_main", "stage": "vertex", "params": [{"k": "struct", "name": "p", "ty": a}, {"k": "struct", "name": "q", "ty": b}], "result": {"k": "builtin", "b": "position"}, "body": [], "wg": []}]}
         cases.append({"id": "snake-%d" % i, "family": "compile-ident", "S": S, "opts": F.opts(bmv=True)})
+    cases.append({"id": "case-clash-0", "family": "compile-ident", "S": {"structs": [], "globals": [], "consts": [], "overrides": [], "functions": [],
+                  "entries": [{"name": "main", "stage": "fragment", "params": [], "body": [], "wg": []}, {"name": "MAIN", "stage": "compute", "params": [], "body": [], "wg": ["1"]},
+                              {"name": "Main", "stage": "vertex", "params": [], "body": [], "wg": []}]}, "opts": F.opts()})
     for i, (n, S) in enumerate(ident_shaders(rng)):
         cases.append({"id": "ident-%03d" % i, "family": "compile-ident", "S": S, "opts": F.opts(bmv=True, enc=True, mv="glam", rustfmt=(i % 2 == 1))})
     re_ = run_mc("MC_Entries.tla", "MC_Entries.cfg", workers=4)
@@ -845,6 +851,8 @@ def entry_cases(rep, rng, quick):
     cases = []
     for i, e in enumerate(r.cases):
         cases.append({"id": "ent-%04d" % i, "family": "entries-exported", "S": e["S"], "opts": F.opts(mv=("rust", "glam")[i % 2], bmv=(i % 3 == 0))})
+    cases.append({"id": "ent-case-clash", "family": "entries-exported", "S": {"structs": [], "globals": [], "consts": [], "overrides": [], "functions": [],
+                  "entries": [{"name": "main", "stage": "fragment", "params": [], "body": [], "wg": []}, {"name": "MAIN", "stage": "compute", "params": [], "body": [], "wg": ["1"]}]}, "opts": F.opts()})
     rcases = []
     for i in range(120 if quick else 2500):
         S, has_rt = F.role_shader(rng, big_arrays=False, entry_names=True)
